@@ -342,6 +342,9 @@ func trustedBase(cs *Contracts, notes []string) []string {
 		if fc.Assumed && fc.Used {
 			tb = append(tb, "assumed contract: "+k)
 		}
+		for _, d := range fc.Defines {
+			tb = append(tb, "definitional postcondition of "+k+": "+d.Src)
+		}
 	}
 	for _, ax := range cs.Axioms {
 		if !ax.Lemma {
